@@ -9,10 +9,8 @@ open Clipper.Props.C20
 #print axioms trim_fixed
 #print axioms trim_idempotent
 #print axioms trim_no_collinear_needs_hypothesis
-#print axioms rdp_eps_partial
-#print axioms rdp_keeps_ends_partial
-#print axioms rdp_eps_false
-#print axioms rdp_keeps_ends_false
+#print axioms rdp_eps
+#print axioms rdp_keeps_ends
 #print axioms simplify_total
 #print axioms simplify_keeps_ends_partial
 #print axioms simplify_fixpoint
